@@ -127,9 +127,6 @@ Definition H_delete_aas_remove := Eval vm_compute in handlers_of "delete_aas" "s
 Definition H_delete_sm_remove := Eval vm_compute in handlers_of "delete_submodel" "self.object_store.remove".
 Definition H_delete_cd_remove := Eval vm_compute in handlers_of "delete_concept_description" "self.object_store.remove".
 Definition H_delete_ref_sm_remove := Eval vm_compute in handlers_of "delete_aas_submodel_refs_submodel" "self.object_store.remove".
-Definition H_put_elem_update := Eval vm_compute in handlers_of "put_submodel_submodel_elements_id_short_path" "submodel_element.update_from".
-Definition H_put_sm_update := Eval vm_compute in handlers_of "put_submodel" "submodel.update_from".
-Definition H_put_ref_sm_update := Eval vm_compute in handlers_of "put_aas_submodel_refs_submodel" "submodel.update_from".
 Definition H_dispatch := Eval vm_compute in handlers_of "handle_request" "endpoint".
 Definition converted : list string := Eval vm_compute in
   match H_dispatch with (cls, ASwallow) :: _ => cls | _ => [] end.
@@ -379,22 +376,25 @@ Definition remove_referable (ch : children) (k : name) : result children :=
 (* ------------------------------------------------------------------ update_from *)
 
 Definition qmem (t : name) (q : list (name * Z)) : bool := existsb (fun x => fst x =? t) q.
-(* update_nss_from on qualifiers: same type -> the OLD qualifier stays untouched; new types are
-   appended; types missing in the new set are removed *)
+(* update_nss_from on qualifiers: a qualifier of the same type is updated in place, new types are
+   appended, types missing in the new set are removed *)
 Definition merge_quals (old new : list (name * Z)) : list (name * Z) :=
-  filter (fun x => qmem (fst x) new) old ++ filter (fun x => negb (qmem (fst x) old)) new.
+  flat_map (fun x => match zlookup (fst x) new with Some v => [(fst x, v)] | None => [] end) old
+  ++ filter (fun x => negb (qmem (fst x) old)) new.
 
-Inductive upd := UMatched (k : name) (e : elem) | UAdded (k : option name) (e : elem) | UFail (x : exc).
+Inductive upd := UMatched (k : name) (e : elem) | UAdded (k : option name) (e : elem) | UReplaced (k : name) (e : elem).
 
-(* Referable.update_from(other) on an element: every plain attribute is copied (idShort too,
-   without re-filing), NamespaceSets are merged; a stored element of another class than the
-   new one makes update_nss_from / vars() fail half-way (modelled as the exception only). *)
-Fixpoint update_elem (new old : elem) {struct new} : result elem :=
+(* Referable.update_from(other) on an element of the same class: every plain attribute is copied
+   (idShort too, without re-filing), NamespaceSets are merged by update_nss_from: a child filed
+   under the idShort of a new child is updated in place if it has the same class and replaced
+   (removed, the new one appended) otherwise; children whose idShort does not occur in the new
+   set are removed; the other new children are appended.  The items of a SubmodelElementList
+   carry generated names, so they are always replaced as a whole. *)
+Fixpoint update_elem (new old : elem) {struct new} : elem :=
   let 'Elem m' ids' tok' q' ct' v' ch' := new in
   let 'Elem m ids tok q ct v ch := old in
-  if negb (mt_eqb m m') then Exc EAttr else
   match m with
-  | MList => Ok (Elem m ids' tok' (merge_quals q q') ct' v' ch')
+  | MList => Elem m ids' tok' (merge_quals q q') ct' v' ch'
   | _ =>
     let fix go (news : children) : list upd :=
       match news with
@@ -403,37 +403,33 @@ Fixpoint update_elem (new old : elem) {struct new} : result elem :=
         (match e_ids n with
          | None => UAdded None n
          | Some k => match clookup k ch with
-                     | Some o => match update_elem n o with Ok o' => UMatched k o' | Exc x => UFail x end
+                     | Some o => if mt_eqb (e_mt n) (e_mt o) then UMatched k (update_elem n o) else UReplaced k n
                      | None => UAdded (Some k) n
                      end
          end) :: go r
       end in
     let us := go ch' in
-    match find (fun u => match u with UFail _ => true | _ => false end) us with
-    | Some (UFail x) => Exc x
-    | _ =>
-      let upd_of k := find (fun u => match u with UMatched k' _ => k =? k' | _ => false end) us in
-      let new_ids := flat_map (fun u => match u with UMatched k _ => [k] | UAdded (Some k) _ => [k] | _ => [] end) us in
-      let kept := flat_map (fun ke : option name * elem =>
-                    match fst ke with
-                    | Some k => match upd_of k with
-                                | Some (UMatched _ o') => [(Some k, o')]
-                                | _ => match e_ids (snd ke) with
-                                       | Some i => if zmem i new_ids then [ke] else []
-                                       | None => []
-                                       end
-                                end
-                    | None => []
-                    end) ch in
-      let added := flat_map (fun u => match u with UAdded k n => [(k, n)] | _ => [] end) us in
-      Ok (Elem m ids' tok' (merge_quals q q') ct' v' (kept ++ added))
-    end
+    let upd_of k := find (fun u => match u with UMatched k' _ | UReplaced k' _ => k =? k' | _ => false end) us in
+    let new_ids := flat_map (fun u => match u with UMatched k _ | UReplaced k _ => [k] | UAdded (Some k) _ => [k] | _ => [] end) us in
+    let kept := flat_map (fun ke : option name * elem =>
+                  match fst ke with
+                  | Some k => match upd_of k with
+                              | Some (UMatched _ o') => [(Some k, o')]
+                              | Some (UReplaced _ _) => []
+                              | _ => match e_ids (snd ke) with
+                                     | Some i => if zmem i new_ids then [ke] else []
+                                     | None => []
+                                     end
+                              end
+                  | None => []
+                  end) ch in
+    let added := flat_map (fun u => match u with UAdded k n => [(k, n)] | UReplaced k n => [(Some k, n)] | _ => [] end) us in
+    Elem m ids' tok' (merge_quals q q') ct' v' (kept ++ added)
   end.
 
 (* the same merge for the submodel_element set of a Submodel *)
-Definition update_children (ch ch' : children) : result children :=
-  do e <- update_elem (Elem MColl None 0 [] 0%nat ANone ch') (Elem MColl None 0 [] 0%nat ANone ch);
-  Ok (e_ch e).
+Definition update_children (ch ch' : children) : children :=
+  e_ch (update_elem (Elem MColl None 0 [] 0%nat ANone ch') (Elem MColl None 0 [] 0%nat ANone ch)).
 
 (* ------------------------------------------------------------------ bodies *)
 
@@ -668,7 +664,7 @@ Definition handler (ep : endpoint) (s : state) (r : request) : HR :=
     do v <- request_body fn r;
     match v with
     | VSm sm' =>
-      do ch <- guard H_put_ref_sm_update (update_children (sm_ch sm) (sm_ch sm')) (Ok (sm_ch sm));
+      let ch := update_children (sm_ch sm) (sm_ch sm') in
       let new := {| sm_id := sm_id sm'; sm_ids := sm_ids sm'; sm_tok := sm_tok sm';
                     sm_quals := merge_quals (sm_quals sm) (sm_quals sm'); sm_ch := ch |} in
       let s1 := store_set s i (OSm new) in
@@ -718,7 +714,7 @@ Definition handler (ep : endpoint) (s : state) (r : request) : HR :=
     do v <- request_body fn r;
     match v with
     | VSm sm' =>
-      do ch <- guard H_put_sm_update (update_children (sm_ch sm) (sm_ch sm')) (Ok (sm_ch sm));
+      let ch := update_children (sm_ch sm) (sm_ch sm') in
       ok (store_set s (the_id (r_sm r))
             (OSm {| sm_id := sm_id sm'; sm_ids := sm_ids sm'; sm_tok := sm_tok sm';
                     sm_quals := merge_quals (sm_quals sm) (sm_quals sm'); sm_ch := ch |}))
@@ -766,8 +762,8 @@ Definition handler (ep : endpoint) (s : state) (r : request) : HR :=
     match v with
     | VElem e' =>
       if raises fn "BadRequest" && negb (mt_eqb (e_mt e) (e_mt e')) then http "BadRequest" else
-      do e2 <- guard H_put_elem_update (update_elem e' e) (Ok e);
-      ok (edit_sm s (the_id (r_sm r)) sm (the_path r) (fun _ => Keep e2)) (respond fn 0 r None None)
+      (* without the class check of the handler update_from would stop half-way (not modelled) *)
+      ok (edit_sm s (the_id (r_sm r)) sm (the_path r) (fun _ => Keep (update_elem e' e))) (respond fn 0 r None None)
     | _ => Exc EAttr
     end
   | ep_delete_submodel_submodel_elements_id_short_path =>
